@@ -98,7 +98,7 @@ FAMILY_PLAN = [
     ('ctx', 5, 200, 1500, 1, {}),
     ('nestedtry', 6, 400, None, 2, dict(balanced_exc=True)), ('nestedtry', 7, 0, 2000, 1, dict(balanced_exc=True)),
     ('tryfin', 6, 200, None, 1, dict(balanced_exc=True)),
-    ('tryret', 7, 350, 3000, 1, {}),
+    ('tryret', 7, 800, 3000, 1, {}),
     ('finnest', 7, 250, 2500, 1, dict(balanced_exc=True)),
 ]
 
